@@ -96,8 +96,16 @@ def main(argv=None):
     try:
         if a.replay:
             case = json.load(open(a.replay))
-            specs = [{'shard': 0, 'seed': case.get('seed', a.seed), 'tier': tier, 'replay': case['replay'],
-                      'hashseed': case.get('hashseed', '0'), 'env': case.get('env'), 'budget_s': 600, 'reach': False}]
+            rr = case['replay'].get('_rerun_shard') if isinstance(case['replay'], dict) else None
+            if rr:
+                # the violation depends on what the same process did before (objects kept across cases): re-run the
+                # original shard, same seed / shard number / hash seed, up to and including the failing case
+                sp = dict(rr['spec'])
+                sp.update(count=rr['index'] + 1, budget_s=600, reach=False)
+                specs = [sp]
+            else:
+                specs = [{'shard': 0, 'seed': case.get('seed', a.seed), 'tier': tier, 'replay': case['replay'],
+                          'hashseed': case.get('hashseed', '0'), 'env': case.get('env'), 'budget_s': 600, 'reach': False}]
         else:
             specs = mod.shards(tier, a.seed)
             for i, s in enumerate(specs):
